@@ -233,6 +233,14 @@ def c05_5(ctx):
             ok = True
     if not ok:
         ctx.fail(fn, bw[0] if bw else fn.node, 'byweekday is not the weekdays NOT in self.weekend')
+    # the table `weekdays` it reads: weekday number (date.weekday(): Monday = 0) -> dateutil weekday constant, the same numbering as the day-by-day path
+    mod, wd = ctx.repo.module_value('_drange', 'weekdays')
+    ctx.count(1, 'module %s: weekdays' % mod)
+    want = ['MO', 'TU', 'WE', 'TH', 'FR', 'SA', 'SU']
+    got = {const(k): U(v) for k, v in zip(wd.keys, wd.values)} if isinstance(wd, ast.Dict) else None
+    if got != dict(enumerate(want)):
+        ctx.fail(fn, wd, 'the table `weekdays` is %s: it must map date.weekday() numbers to the dateutil constants of the same day (0: MO ... 5: SA, 6: SU), or the enumerated business days disagree with is_bday' % U(wd),
+                 witness="calendar with weekend=[6] (Sunday only): the table skips Saturdays")
     bd = [n for n in body_nodes(fn.node) if isinstance(n, ast.Assign) and U(n.targets[0]) == 'bdays']
     ctx.count(1)
     if not bd or not isinstance(bd[0].value, ast.ListComp):
